@@ -11,6 +11,7 @@ import Nq.Lemmas.C17Envelope
 import Nq.Lemmas.C17Unparse
 import Nq.Lemmas.C17Group
 import Nq.Lemmas.C17Rewrite
+import Nq.Lemmas.C17Inject
 
 namespace Nq.Props.C17
 open Nq Nq.Quote Nq.Token822 Nq.SmtpAddr Nq.Inject Nq.Spec.Addr Nq.Spec.Lex822 Nq.Lemmas.C17
@@ -275,6 +276,22 @@ theorem C17_envelope (cb : List Tok → List Tok) (els : List El) (cts : List (B
       ← (C17_comments_ignored cb name colon (els.flatMap El.toks).reverse).2]
     exact (C17_envelope_groups cb name colon els hv hel).2
 
+/-- **The envelope for an address-list TREE** (RFC 822 `#address`): `L` is any list of addresses — a mailbox
+(`addr-spec` or `phrase <route-addr>`) or a group `name : mailboxes ;` — separated by commas (listed right
+to left, token lists reversed, as the C callback sees them).  Every such list is accepted by the grammar
+automaton, so: for EVERY legal rendering of the field (any quoting, white space, folding; comments inserted
+anywhere in the body) `token822_parse` and `token822_addrlist` succeed and the callback is invoked exactly on
+the mailboxes of the tree — group members included — last to first.  (Missing commas: `C17_envelope`.) -/
+theorem C17_envelope_ast (cb : List Tok → List Tok) (L : List Addr) (cts : List (Bytes × CTok)) (tr : Bytes)
+    (name colon : Tok) (body : List Tok) (hL : ∀ a ∈ L, a.ok)
+    (hok : cts.all (fun p => p.2.ok) = true) (hsep : sepsOk false cts = true) (htr : tr.all isWs = true)
+    (htoks : cts.map (fun p => p.2.tok) = name :: colon :: body)
+    (hskel : body.filter notComment = (((flatAddrs L).flatMap El.toks).reverse).filter notComment) :
+    ∃ ts, parse (render cts tr) = some ts ∧ (addrlist cb ts).ok = true ∧
+      (addrlist cb ts).got = (L.flatMap Addr.mailboxes).map cb := by
+  have := C17_envelope cb (flatAddrs L) cts tr name colon body (validEls_addrs L) (ok_addrs L hL) hok hsep htr htoks hskel
+  rwa [mboxes_addrs] at this
+
 /-- **…and into qmail-inject's lists.**  A header field `h` that `token822_parse` accepts and on which
 `token822_addrlist` succeeds with qmail-inject's callback — by `C17_envelope` every legal rendering of a
 grammatical list, with `got = (mboxes els).map (rwgeneric c)` —: if it is a To, Cc, Bcc or Apparently-To
@@ -378,6 +395,76 @@ theorem C17_rewrite_strings (c : RwCfg) (s : Bytes) (r pt : List Tok)
     rw [C17_rewrite_plusdomain c s r pt hat hlast h1 h2 h3]
     simp [addrString, unquote_append, unquote, unqTok]
 
+/-- **The whole message: what reaches qmail-queue.**  For EVERY input message and option set with which
+qmail-inject exits 0 (and queues, `-N`): the recipients handed to `qmail_to` are
+`envelopeRecips strategy reciplist st` (spelled out by `C17_modes`), where `reciplist` is the rewritten
+argument list and the header lists are exactly the concatenation, over the header fields `headerbody`
+delivers and in their order, of each field's contribution: for a To/Cc/Bcc/Apparently-To field
+(`hrlist`; Resent-To/Cc/Bcc for `hrrlist`) the unquoted callback results of `token822_addrlist` on it — by
+`C17_envelope` / `C17_envelope_field` the rewritten listed mailboxes — and nothing for any other field. -/
+theorem C17_envelope_inject (e : Env) (a : Args) (inp : Bytes) (dd dh pd : List Tok)
+    (hdd : parse ([46] ++ e.defaultdomain) = some dd) (hdh : parse ([AT] ++ e.defaulthost) = some dh)
+    (hpd : parse ([46] ++ e.plusdomain) = some pd)
+    (hex : (inject e a inp).exit = 0) (hq : a.queue = true) :
+    ∃ (reciplist : List Bytes) (st : ISt),
+      (inject e a inp).recips = (envelopeRecips (effStrategy a) reciplist st).map cstr ∧
+      st.hrlist = (headerbody inp).fields.flatMap (hrContribution ⟨dh, dd, pd⟩ 1) ∧
+      st.hrrlist = (headerbody inp).fields.flatMap (hrContribution ⟨dh, dd, pd⟩ 2) ∧
+      (effStrategy a ≠ 3 → mapOpt (argAddress ⟨dh, dd, pd⟩) a.recips = some reciplist) ∧
+      (effStrategy a = 3 → reciplist = []) := by
+  unfold inject at hex ⊢
+  simp only [hdd, hdh, hpd] at hex ⊢
+  generalize hc : ({ defaulthost := dh, defaultdomain := dd, plusdomain := pd } : RwCfg) = c at hex ⊢
+  split at hex
+  · simp at hex
+  · rename_i sender0 heq
+    generalize hrl : (if effStrategy a ≠ 3 then mapOpt (argAddress c) a.recips else some []) = rl at hex ⊢
+    cases rl with
+    | none => simp at hex
+    | some reciplist =>
+      simp only [] at hex ⊢
+      have hdead0 := header_dead e c (headerbody inp).fields { sender := sender0 } (Or.inl rfl)
+      generalize hst0 : List.foldl (doheaderfield e c) { sender := sender0 } (headerbody inp).fields = st0 at hex hdead0 ⊢
+      cases hd0 : st0.dead with
+      | some x =>
+        simp only [hd0] at hex
+        rcases hdead0 with h | h
+        · rw [hd0] at h; simp at h
+        · rw [hd0] at h; simp only [Option.some.injEq] at h; omega
+      | none =>
+        simp only [hd0] at hex ⊢
+        have hl := header_lists e c (headerbody inp).fields { sender := sender0 } (by rw [hst0]; exact hd0)
+        rw [hst0] at hl
+        have hdr := defaultReturnPath_facts e c st0
+        generalize hst1 : (if st0.sender.isNone = true then defaultReturnPath e c st0 else st0) = st1 at hex ⊢
+        have f1 : st1.hrlist = st0.hrlist ∧ st1.hrrlist = st0.hrrlist ∧ (st1.dead = none ∨ st1.dead = some 100) := by
+          rw [← hst1]
+          split
+          · refine ⟨hdr.1, hdr.2.1, ?_⟩
+            rcases hdr.2.2.2 with h | h
+            · left; rw [h, hd0]
+            · right; exact h
+          · exact ⟨rfl, rfl, Or.inl hd0⟩
+        cases hd1 : st1.dead with
+        | some x =>
+          simp only [hd1] at hex
+          rcases f1.2.2 with h | h
+          · rw [hd1] at h; simp at h
+          · rw [hd1] at h; simp only [Option.some.injEq] at h; omega
+        | none =>
+          simp only [hd1] at hex ⊢
+          cases hg : generatedFields e c st1 with
+          | none => simp [hg] at hex
+          | some gen =>
+            simp only [hg, hq, if_true]
+            refine ⟨reciplist, st1, rfl, ?_, ?_, ?_, ?_⟩
+            · rw [f1.1, hl.2.1]; simp
+            · rw [f1.2.1, hl.2.2]; simp
+            · intro hne; simpa [hne] using hrl
+            · intro heq
+              simp only [heq, ne_eq, not_true_eq_false, if_false, Option.some.injEq] at hrl
+              exact hrl.symm
+
 /-- **The token-level rewriting IS the documented string-level rewriting** (`Spec.Addr.rewriteMailbox`, written
 from qmail-header(5) / qmail-inject(8) independently of the token model; it is what the harness oracle
 compares the real envelope with).  For a mailbox `local@host` — local part ANY non-empty token list not
@@ -406,6 +493,36 @@ theorem C17_rewrite_spec (c : RwCfg) (sp : RwSpec) (ls h0 pt : List Tok) (s : By
   rw [e] at h2 ⊢
   rw [h1, h2]
   simp [rewriteMailbox]
+
+/-- **Source routes are stripped** ("strips all source routes", qmail-header(5)): `@route:local@host` (the
+route has no colon of its own; `local@host` is not itself a route and its host ends in an atom) is
+rewritten exactly as `local@host` is — to which `C17_rewrite_spec` applies.  (The one exception in the C
+code, an address ending in `@[]`, is left completely alone, route included.) -/
+theorem C17_rewrite_route (c : RwCfg) (rt inner r : List Tok) (s : Bytes)
+    (hrt : Tok.colon ∉ rt) (hin : inner.reverse = .atom s :: r) (hnr : inner.head? ≠ some .at) :
+    rwgeneric c ((.at :: rt ++ .colon :: inner).reverse) = rwgeneric c inner.reverse := by
+  have hdrop : ∀ (x : List Tok), Tok.colon ∉ x → dropThroughColon (x ++ .colon :: inner) = inner := by
+    intro x hx
+    induction x with
+    | nil => simp [dropThroughColon]
+    | cons t x ih =>
+      have ht : t ≠ .colon := fun e => hx (by simp [e])
+      simp [dropThroughColon, ht, ih (fun e => hx (by simp [e]))]
+  have hlast1 : (Tok.atom s :: r).getLast? ≠ some .at := by
+    rw [← hin, List.getLast?_reverse]; exact hnr
+  have e : (Tok.at :: rt ++ .colon :: inner).reverse = .atom s :: (r ++ (.colon :: rt.reverse ++ [.at])) := by
+    simp [hin]
+  have hlast2 : (Tok.atom s :: (r ++ (.colon :: rt.reverse ++ [.at]))).getLast? = some .at := by
+    have : Tok.atom s :: (r ++ (.colon :: rt.reverse ++ [.at])) = (Tok.atom s :: (r ++ .colon :: rt.reverse)) ++ [.at] := by simp
+    rw [this, List.getLast?_concat]
+  have hroute : rwroute (Tok.atom s :: (r ++ (.colon :: rt.reverse ++ [.at]))) = .atom s :: r := by
+    simp only [rwroute, hlast2, if_true]
+    rw [← e, List.reverse_reverse]
+    have : Tok.at :: rt ++ .colon :: inner = (Tok.at :: rt) ++ .colon :: inner := by simp
+    rw [this, hdrop (.at :: rt) (by simpa using hrt), hin]
+  have hself : rwroute (Tok.atom s :: r) = .atom s :: r := by simp [rwroute, hlast1]
+  rw [e, hin]
+  simp only [rwgeneric, hroute, hself]
 
 /-- …a domain-literal host is left alone… -/
 theorem C17_rewrite_spec_literal (c : RwCfg) (sp : RwSpec) (ls : List Tok) (x : Bytes)
@@ -609,12 +726,35 @@ name): same callbacks -/
 example : (addrlist id [.atom [84, 111], .colon, .atom [103], .comment [120], .colon, .atom [97], .comment [121], .at, .atom [98], .atom [99], .semi,
       .comma, .atom [74], .left, .at, .atom [114], .colon, .comment [122], .atom [117], .at, .atom [104], .right, .atom [100]]).got
     = [[.atom [100]], [.atom [104], .at, .atom [117], .colon, .atom [114], .at], [.atom [99]], [.atom [98], .at, .atom [97]]] := by decide
+/-- the tree `g: a@b, c;, J <@r:u@h>` (right to left: the angle address, then the group with members c, a@b) -/
+def exTree : List Addr :=
+  [.mbox (.angle [.atom [104], .at, .atom [117], .colon, .atom [114], .at] [.atom [74]]),
+   .group [.atom [103]] [.plain [.atom [99]], .plain [.atom [98], .at, .atom [97]]]]
+example : ((flatAddrs exTree).flatMap El.toks).reverse
+    = [.atom [103], .colon, .atom [97], .at, .atom [98], .comma, .atom [99], .semi, .comma, .atom [74], .left,
+       .at, .atom [114], .colon, .atom [117], .at, .atom [104], .right] := by decide
+example : exTree.flatMap Addr.mailboxes
+    = [[.atom [104], .at, .atom [117], .colon, .atom [114], .at], [.atom [99]], [.atom [98], .at, .atom [97]]] := by decide
+example : ∀ a ∈ exTree, a.ok := by
+  intro a h
+  simp only [exTree, List.mem_cons, List.not_mem_nil, or_false] at h
+  rcases h with rfl | rfl <;>
+    simp [Addr.ok, Item.ok, sepOkC, notComment, isWordTok, isSepTok, isPhraseTok]
 /-- folding at a short line length: `a,b,c` with line length 3 is written `a,` LF SP SP `b,` LF SP SP `c` LF …
 and parses back -/
 example : unparse 3 [.atom [97], .comma, .atom [98], .comma, .atom [99]] = [97, 44, 10, 32, 32, 98, 44, 10, 32, 32, 99, 10] := by decide
 example : unparse 80 [.atom [97], .comma, .atom [98], .comma, .atom [99]] = [97, 44, 32, 98, 44, 32, 99, 10] := by decide
 example : parse [97, 44, 10, 32, 32, 98, 44, 10, 32, 32, 99, 10] = some [.atom [97], .comma, .atom [98], .comma, .atom [99]] := by decide
 
+/-- the field `To:a@b, c` LF contributes `c@h.d`, `a@b.d` to `hrlist` and nothing to `hrrlist` -/
+example : hrContribution { defaulthost := [.at, .atom [104]], defaultdomain := [.dot, .atom [100]], plusdomain := [.dot, .atom [112]] } 1
+    [84, 111, 58, 97, 64, 98, 44, 32, 99, 10] = [[99, 64, 104, 46, 100], [97, 64, 98, 46, 100]] := by decide
+example : hrContribution { defaulthost := [.at, .atom [104]], defaultdomain := [.dot, .atom [100]], plusdomain := [.dot, .atom [112]] } 2
+    [84, 111, 58, 97, 64, 98, 44, 32, 99, 10] = [] := by decide
+/-- `@r:u@h`: same result as `u@h` -/
+example : rwgeneric { defaulthost := [.at, .atom [104]], defaultdomain := [.dot, .atom [100]], plusdomain := [.dot, .atom [112]] }
+      ([Tok.at, .atom [114], .colon, .atom [117], .at, .atom [104]].reverse)
+    = [.atom [100], .dot, .atom [104], .at, .atom [117]] := by decide
 /-- `u@h` with defaultdomain `d`: tokens of host `h` are a legal dot-atom host; result `u@h.d` -/
 example : ([] ++ [Tok.atom [104]]).all hostTok = true := by decide
 example : addrString (rwgeneric { defaulthost := [.at, .atom [104]], defaultdomain := [.dot, .atom [100]], plusdomain := [.dot, .atom [112]] }
